@@ -240,7 +240,10 @@ def newline_flag(F, rep):
     # push/pop themselves
     fpush, fpop = F.fn(PUSH), F.fn(POP)
     rep.ob("NEWLINE-FLAG", "push|returns-old", "self.skip_newlines" in pp(tc.n_tail(fn_body(fpush))), "push returns the previous flag", fpush["sp"])
-    rep.ob("NEWLINE-FLAG", "pop|sets", "new.skip_newlines = skip_newlines" in pp(fn_body(fpop)), "pop installs the given flag", fpop["sp"])
+    pop_params = {b["hid"] for prm in fpop["params"] for b in pat_bindings(prm["pat"]) if b["name"] != "self"}
+    pop_sets = any(a.get("k") == "Assign" and peel(a["l"]).get("k") == "Field" and peel(a["l"])["name"] == "skip_newlines"
+                   and peel(a["r"]).get("hid") in pop_params for a in nodes(fn_body(fpop)))
+    rep.ob("NEWLINE-FLAG", "pop|sets", pop_sets, "pop installs the given flag", fpop["sp"])
 
 
 # which newline mode each construct selects (read from the source, one reason per line).  Inside brackets newlines
@@ -308,7 +311,13 @@ def comments(F, rep):
     body = fn_body(fn)
     t = pp(body)
     cm = [m for m in nodes(body, "Match")]
-    loop_skips = any("Token::Comment(_) => new.curr AddAssign= 1" in pp(m).replace("\n", " ") for m in cm)
+    loop_skips = False
+    for m in cm:
+        for a in m["arms"]:
+            if any((pat_variant(x) or "").endswith("Token::Comment") for x in pat_alternatives(a["pat"])):
+                b = peel(a["body"])
+                if b.get("k") == "AssignOp" and peel(b["l"]).get("k") == "Field" and peel(b["l"])["name"] == "curr":
+                    loop_skips = True
     counts = "!" in t and "Token::Comment" in t
     rep.ob("COMMENTS", "Context::skip|skips-comments", loop_skips and counts,
            "skip(n) does not count comment tokens and passes over trailing comments", fn["sp"])
